@@ -622,16 +622,33 @@ def interrupt_sweep(quick, seed):
     (object construction is lazy: the first trial builds matrices, decoders,
     probability tables), continued on the same object or by a new one."""
     out = []
+    step = 5 if quick else 1
+    specs = []
     for dec_name, variants in sorted(DECODER_VARIANTS.items()):
-        spec = make_spec([(2, 2)], [(1 / 3, 1 / 3, 1 / 3)], [0.1], decoder=dec_name,
-                         dparams=variants[0])
-        for k in range(0, 700, 5 if quick else 1):
-            for same in (True, False):
-                run0 = {'target': 2, 'sf': 1, 'stop': ['ki_anywhere', k, 0]}
-                if same:
-                    run0['resume_same_object'] = True
-                out.append({'kind': 'history', 'fmt': 'json' if k % 2 else 'gz', 'spec0': spec,
-                            'runs': [run0, {'target': 3, 'sf': 1}], 'seed': seed + k})
+        specs.append((make_spec([(2, 2)], [(1 / 3, 1 / 3, 1 / 3)], [0.1], decoder=dec_name,
+                                dparams=variants[0]), 0))
+    # the other method: two chains, so a step can be torn between them
+    for n_init in (1, 2):
+        sp = make_spec([(2, 2)], [(1 / 3, 1 / 3, 1 / 3)], [0.1, 0.2])
+        sp['ranges']['method'] = {'name': 'splitting', 'parameters': {'n_init_runs': n_init}}
+        specs.append((sp, 3 + n_init))
+    for spec, off in specs:
+        # final target 3: the continuation has work left; final target 2: it
+        # may have none (the pause fell into the save of the last trial)
+        for final, shift in ((3, 0), (2, 2)):
+            for k in range((off + shift) % step, 700, step):
+                for same in (True, False):
+                    run0 = {'target': 2, 'sf': 1, 'stop': ['ki_anywhere', k, 0]}
+                    if same:
+                        run0['resume_same_object'] = True
+                    out.append({'kind': 'history', 'fmt': 'json' if k % 2 else 'gz', 'spec0': spec,
+                                'runs': [run0, {'target': final, 'sf': 1}], 'seed': seed + k})
+    for spec, off in specs[-2:]:
+        for k in range(0, 13):
+            for final in (2, 3):
+                out.append({'kind': 'history', 'fmt': 'json', 'spec0': spec, 'seed': seed + k,
+                            'runs': [{'target': 2, 'sf': 1, 'stop': ['ki_decode', k, 0],
+                                      'resume_same_object': True}, {'target': final, 'sf': 1}]})
     return out
 
 
